@@ -136,6 +136,10 @@ def gen_comm_and_argv0(rng):
             rng.choice(b"abcxyz") for _ in range(rng.choice([0, 1, 3])))
     else:
         full = bytes(rng.choice(b"abcxyz") for _ in range(rng.choice([1, 2, 5, 8])))
+    if rng.random() < 0.06:
+        # /proc/PID/comm takes any byte but NUL, and the stat record prints it raw: line breaks, tabs, "(x) R 1" look-alikes
+        k = rng.randrange(len(full) + 1)
+        full = (full[:k] + rng.choice([b"\n", b"\r\n", b"\n(y) R 1 ", b"\t", b"\x0b", b") S 1 ("]) + full[k:])[:rng.choice([15, 15, 20, 9])] or b"\n"
     comm = full[:15]
     v = rng.randrange(12)
     if v < 3:
